@@ -5,6 +5,7 @@ import (
 	"go/ast"
 	"go/token"
 	"go/types"
+	"os"
 	"regexp"
 	"sort"
 	"strings"
@@ -62,7 +63,7 @@ func c19Bounds(r *core.Run, p *core.Prog, v string) {
 		case ast.Expr:
 			if len(g.Succ[id]) == 2 {
 				if b, ok := core.BinOp(x, token.LSS); ok {
-					if la, ok := lenArg(info, b.X); ok && core.ObjOf(info, la) == layer {
+					if la, ok := lenArg(info, resolveLocal(info, f.Decl.Body, b.X)); ok && core.ObjOf(info, la) == layer {
 						if k, ok := core.ConstInt(info, b.Y); ok {
 							guards = append(guards, guard{id, k, true})
 						}
@@ -233,36 +234,48 @@ func c19Mirror(r *core.Run, p *core.Prog, v string) {
 		return
 	}
 	info := f.Info()
-	// statements that copy into the hash's port slots
+	// the innermost if statements whose body copies into the hash's port slots; rendered canonically (locals inlined,
+	// parameters by position) and de-duplicated, so that a port section that was moved into a helper and is expanded at two
+	// call sites, or whose conditions were hoisted into locals, reads the same
+	cn := newCanon(f)
 	var stmts []*ast.IfStmt
 	var stray []string
-	core.Walk(f.Decl.Body, false, func(x ast.Node) bool {
-		switch s := x.(type) {
-		case *ast.IfStmt:
-			copies := false
-			core.Walk(s.Body, false, func(y ast.Node) bool {
-				if c, ok := y.(*ast.CallExpr); ok && core.CallName(info, c) == "builtin.copy" && strings.Contains(core.Str(c.Args[0]), "Port") {
-					copies = true
-				}
+	isPortCopy := func(n ast.Node) bool {
+		c, ok := n.(*ast.CallExpr)
+		return ok && core.CallName(info, c) == "builtin.copy" && strings.Contains(core.Str(c.Args[0]), "Port")
+	}
+	directCopy := func(s *ast.IfStmt) bool {
+		for _, st := range s.Body.List {
+			if es, ok := st.(*ast.ExprStmt); ok && isPortCopy(es.X) {
 				return true
-			})
-			if copies {
-				stmts = append(stmts, s)
-				return false
 			}
-		case *ast.CallExpr:
-			if core.CallName(info, s) == "builtin.copy" && strings.Contains(core.Str(s.Args[0]), "Port") {
-				stray = append(stray, p.Rel(s.Pos()))
+		}
+		return false
+	}
+	guardedCopies := map[ast.Node]bool{}
+	core.Walk(f.Decl.Body, false, func(x ast.Node) bool {
+		if s, ok := x.(*ast.IfStmt); ok && directCopy(s) {
+			stmts = append(stmts, s)
+			for _, st := range s.Body.List {
+				if es, ok := st.(*ast.ExprStmt); ok {
+					guardedCopies[es.X] = true
+				}
 			}
+		}
+		return true
+	})
+	core.Walk(f.Decl.Body, false, func(x ast.Node) bool {
+		if isPortCopy(x) && !guardedCopies[x] {
+			stray = append(stray, p.Rel(x.Pos()))
 		}
 		return true
 	})
 	render := func(s *ast.IfStmt) string {
 		var sb strings.Builder
-		sb.WriteString("if " + core.Str(s.Cond) + " {")
+		sb.WriteString("if " + cn.cond(s.Cond, true) + " {")
 		for _, st := range s.Body.List {
 			if es, ok := st.(*ast.ExprStmt); ok {
-				sb.WriteString(core.Str(es.X) + ";")
+				sb.WriteString(cn.str(es.X) + ";")
 			} else {
 				sb.WriteString(fmt.Sprintf("<%T>;", st))
 			}
@@ -272,6 +285,17 @@ func c19Mirror(r *core.Run, p *core.Prog, v string) {
 			sb.WriteString("else<…>")
 		}
 		return sb.String()
+	}
+	{
+		seen := map[string]bool{}
+		var uniq []*ast.IfStmt
+		for _, s := range stmts {
+			if k := render(s); !seen[k] {
+				seen[k] = true
+				uniq = append(uniq, s)
+			}
+		}
+		stmts = uniq
 	}
 	swap := func(s string) string {
 		re := regexp.MustCompile(`SPort|DPort|sport|dport`)
@@ -535,6 +559,13 @@ func c19Siblings(r *core.Run, p *core.Prog) {
 	for k := range s6 {
 		if !s4[k] {
 			diff = "IPv6 only: " + k
+			if os.Getenv("GPV_DEBUG") != "" {
+				for k4 := range s4 {
+					if strings.Contains(k4, "TCP:true") {
+						fmt.Println("V4:", k4)
+					}
+				}
+			}
 		}
 	}
 	r.Stat("paths_enumerated", len(s4)+len(s6))
